@@ -16,6 +16,7 @@ def Res.okFor (st : Pc) (r : Res) : Bool :=
   | .gChk, .okS => true
   | .gChk, .disposed => true
   | .gChk, .notInit => true
+  | .gChk, .provDisposed => true
   | .sChk, .okChild _ => true
   | .sChk, .disposed => true
   | .sChk, .provDisposed => true
@@ -42,10 +43,10 @@ def Fam (st : Pc) : Pc → Bool
   | .rSelf k o _ => st == .rChk (topKey k o) false
   | .rUnl k o r => st == .rChk (topKey k o) false && (r.inst.isSome || r.okFor st)
   | .tChk | .tCtor | .tTrk _ | .tSelf _ => st == .tChk
-  | .gChk | .gLoad => st == .gChk
-  | .sChk | .sInit | .sAdd _ | .sReg _ | .sSpawn _ => st == .sChk
+  | .gChk | .gLoad | .gMiss1 | .gMiss2 => st == .gChk
+  | .sChk | .sInit | .sAdd _ | .sReg _ | .sRe _ | .sUndo _ | .sSpawn _ => st == .sChk
   | .kCas _ k | .kWait _ k | .kDetP _ k | .kDetS _ k | .kSig _ k => k.okFor st
-  | .cCas k | .cWait k | .cCancel k | .cTake k | .cKids _ k | .cTakeD k | .cDrain _ k | .cDetS k | .cNil k | .cErr k
+  | .cCas k | .cWait k | .cCancel _ k | .cTake k | .cKids _ k | .cTakeD k | .cDrain _ k | .cDetS k | .cNil k | .cErr k
   | .cSig k => k.okFor st && (st == .cCas (.ret .okUnit) || st == .pCas || st == .wS)
   | .pCas | .pTake | .pScopes _ | .pRest => st == .pCas
   | .wS => st == .wS
